@@ -218,3 +218,120 @@ fn c32_client_field_declaration() {
     kani::cover!(want == Want::Decl);
     std::mem::forget(decl);
 }
+
+/// Client pointer declaration: parent type, pointer name, target type, optional description,
+/// a flat selection set with two scalar selections, no variables. All spans symbolic.
+#[kani::proof]
+#[kani::unwind(3)]
+fn c32_client_pointer_declaration() {
+    let ts = TextSource { relative_path_to_source_file: nm(), span: None };
+    let (p, n, tt, dsc, ss) = (any_span(), any_span(), any_span(), any_span(), any_span());
+    let has_desc: bool = kani::any();
+    kani::assume(apart(p, n) && apart(p, tt) && apart(p, ss) && apart(n, tt) && apart(n, ss) && apart(tt, ss));
+    kani::assume(!has_desc || (apart(dsc, p) && apart(dsc, n) && apart(dsc, tt) && apart(dsc, ss)));
+    let (a, b) = (any_span(), any_span());
+    kani::assume(inside(a, ss) && inside(b, ss) && apart(a, b));
+    let set = SelectionSet {
+        selections: vec![
+            wl(SelectionType::Scalar(scalar(ts, a)), ts, a),
+            wl(SelectionType::Scalar(scalar(ts, b)), ts, b),
+        ],
+    };
+    let decl = ClientPointerDeclaration {
+        const_export_name: nm(),
+        parent_type: wl(EntityNameWrapper(nm()), ts, p),
+        client_pointer_name: wl(ClientObjectSelectableNameWrapper(nm()), ts, n),
+        target_type: wl(TypeAnnotationDeclaration::Scalar(EntityNameWrapper(nm())), ts, tt),
+        directives: wl(vec![], ts, Span { start: 0, end: 0 }),
+        description: if has_desc { Some(wl(Description(nm()), ts, dsc)) } else { None },
+        selection_set: wl(set, ts, ss),
+        variable_definitions: vec![],
+        definition_path: nm(),
+        semantic_tokens: vec![],
+    };
+    let pos: u32 = kani::any();
+    kani::assume(pos <= 1000);
+    let got = decl.resolve((), Span { start: pos, end: pos });
+    // 0 decl, 1 parent type, 2 name, 3 target type, 4 description, 5 selection set, 6 first selection, 7 second selection
+    let want = if has(p, pos) {
+        1
+    } else if has(n, pos) {
+        2
+    } else if has(tt, pos) {
+        3
+    } else if has_desc && has(dsc, pos) {
+        4
+    } else if has(ss, pos) {
+        if has(a, pos) { 6 } else if has(b, pos) { 7 } else { 5 }
+    } else {
+        0
+    };
+    let sel = |i: usize| match &decl.selection_set.item.selections[i].item {
+        SelectionType::Scalar(s) => s as *const ScalarSelection,
+        _ => unreachable!(),
+    };
+    match got {
+        IsographResolvedNode::ClientPointerDeclaration(path) => assert!(want == 0 && std::ptr::eq(path.inner, &decl)),
+        IsographResolvedNode::EntityNameWrapper(path) => {
+            assert!(want == 1);
+            assert!(matches!(path.parent, EntityNameWrapperParent::ClientPointerDeclaration(_)));
+        }
+        IsographResolvedNode::ClientObjectSelectableNameWrapper(path) => {
+            assert!(want == 2 && std::ptr::eq(path.inner, &decl.client_pointer_name.item))
+        }
+        IsographResolvedNode::TypeAnnotation(path) => {
+            assert!(want == 3);
+            assert!(matches!(path.parent, TypeAnnotationDeclarationParentType::ClientPointerDeclaration(_)));
+        }
+        IsographResolvedNode::Description(path) => {
+            assert!(want == 4);
+            assert!(matches!(path.parent, DescriptionParent::ClientPointerDeclaration(_)));
+        }
+        IsographResolvedNode::SelectionSet(path) => {
+            assert!(want == 5);
+            assert!(matches!(path.parent, SelectionSetParentType::ClientPointerDeclaration(_)));
+        }
+        IsographResolvedNode::ScalarSelection(path) => {
+            assert!(want == 6 || want == 7);
+            assert!(std::ptr::eq(path.inner as *const ScalarSelection, sel(if want == 6 { 0 } else { 1 })), "the selection under the cursor, not its sibling");
+        }
+        _ => panic!("unexpected node kind for a client pointer declaration"),
+    }
+    kani::cover!(want == 7, "cursor on the second selection");
+    kani::cover!(want == 3);
+    kani::cover!(want == 4);
+    kani::cover!(want == 0);
+    std::mem::forget(decl);
+}
+
+/// Entrypoint declaration: parent type and field name only.
+#[kani::proof]
+#[kani::unwind(3)]
+fn c32_entrypoint_declaration() {
+    let ts = TextSource { relative_path_to_source_file: nm(), span: None };
+    let (p, n) = (any_span(), any_span());
+    kani::assume(apart(p, n));
+    let decl = EntrypointDeclaration {
+        parent_type: wl(EntityNameWrapper(nm()), ts, p),
+        client_field_name: wl(ClientScalarSelectableNameWrapper(nm()), ts, n),
+        entrypoint_keyword: wl((), ts, Span { start: 0, end: 0 }),
+        dot: wl((), ts, Span { start: 0, end: 0 }),
+        iso_literal_text: nm(),
+        directive_set: wl(vec![], ts, Span { start: 0, end: 0 }),
+        semantic_tokens: vec![],
+    };
+    let pos: u32 = kani::any();
+    kani::assume(pos <= 1000);
+    match decl.resolve((), Span { start: pos, end: pos }) {
+        IsographResolvedNode::EntrypointDeclaration(path) => assert!(!has(p, pos) && !has(n, pos) && std::ptr::eq(path.inner, &decl)),
+        IsographResolvedNode::EntityNameWrapper(path) => {
+            assert!(has(p, pos));
+            assert!(matches!(path.parent, EntityNameWrapperParent::EntrypointDeclaration(_)));
+        }
+        IsographResolvedNode::ClientScalarSelectableNameWrapper(_) => assert!(has(n, pos) && !has(p, pos)),
+        _ => panic!("unexpected node kind for an entrypoint declaration"),
+    }
+    kani::cover!(has(n, pos));
+    kani::cover!(!has(p, pos) && !has(n, pos));
+    std::mem::forget(decl);
+}
